@@ -574,8 +574,10 @@ func (st *wstate) checkMulti(i int, l *scen.Lifetime, lf *model.Life, after worl
 			if plan != nil && plan.MayReorder && lf.Addressed[path] != nil {
 				f.OrderKnown = false // sorted by Clean, but the new order cannot be read back here
 			}
+			st.out.Stats.Probes["files_checked_by_replay_only"]++
 			return nil
 		}
+		st.out.Stats.Probes["files_checked_structurally"]++
 		act, err := ParseSnap(b)
 		if err != nil {
 			props := callProps("C03")
